@@ -13,7 +13,8 @@ package corr
 //                        engine has RTT = read instant − instant the probe was handed to the sink = the scripted
 //                        delay, exactly, in virtual ns; every hop of the result reports the RTT of the first
 //                        accepted reply for its TTL (destination override excepted); ToHops' float = ns/1e6.
-//   wire-ser-latedup     the same for the serial engine WITH a late duplicate (finding F10).
+//   wire-ser-latedup     the same for the serial engine WITH a late duplicate (finding F10, fixed by
+//                        feeb434: the stream now has to be clean).
 //   timed-par / timed-ser scripted-driver runs with per-call durations of both real engines vs the Lean timed
 //                        model (result, finish time, send times must agree exactly).
 //   e2e                  runE2eProbeOnce over scripted runs vs Spec.e2eSpec.
@@ -930,54 +931,40 @@ func c05JudgeWire(rep *hx.Report, c c05WireCase, o c05WireObs) (line string, fin
 	for i, a := range o.Accepts {
 		toks[i] = c05AcceptToken(a)
 	}
-	if c.Engine == "par" {
-		line = strings.TrimRight(fmt.Sprintf("spec.expected %d %d %s", c.Cfg.Min, c.Cfg.Max, strings.Join(toks, " ")), " ")
-	} else {
-		line = strings.TrimRight(fmt.Sprintf("timed.first %d %d %s", c.Cfg.Min, c.Cfg.Max, strings.Join(toks, " ")), " ")
-	}
+	// both engines follow the same slot rule (the serial one since the fix for F10): the answer is
+	// Spec.expected of the accepted replies
+	line = strings.TrimRight(fmt.Sprintf("spec.expected %d %d %s", c.Cfg.Min, c.Cfg.Max, strings.Join(toks, " ")), " ")
 	finish = func(ans string) {
 		_, _, floatBad := c05ResultString(c.params(), o.Run)
 		if floatBad != "" {
 			violate("float-ms", "ToHops milliseconds do not correspond to the probe's duration: "+floatBad)
 			return
 		}
-		if c.Engine == "par" {
-			slots := make([]string, len(o.Run.Res))
-			for k, p := range o.Run.Res {
-				slots[k] = slotToken(p)
-			}
-			if got := strings.Join(slots, ","); got != ans {
-				violate("not-first-accepted", fmt.Sprintf("result %q is not the first-accepted (destination-overrides) selection %q of the accepted replies", got, ans))
-			}
+		slots := make([]string, len(o.Run.Res))
+		for k, p := range o.Run.Res {
+			slots[k] = slotToken(p)
+		}
+		got := strings.Join(slots, ",")
+		if got == ans {
 			return
 		}
+		defect := "not-first-accepted"
 		want := strings.Split(ans, ",")
 		for k, p := range o.Run.Res {
-			if k >= len(want) {
-				break
+			if k >= len(want) || p == nil || slotToken(p) == want[k] {
+				continue
 			}
-			ttl := c.Cfg.Min + k
-			switch {
-			case p == nil && want[k] != "_":
-				// a reply read in a later window may be lost; that is completeness (C02), not RTT fidelity
-				rep.Hit("serial:accepted-reply-not-in-result")
-			case p != nil && want[k] != strconv.FormatInt(int64(p.RTT), 10):
-				defect := "not-first-accepted"
-				for _, a := range o.Accepts {
-					if a.TTL == ttl && a.RTT == p.RTT {
+			seen := 0
+			for _, a := range o.Accepts {
+				if a.TTL == c.Cfg.Min+k {
+					seen++
+					if seen > 1 && a.RTT == p.RTT {
 						defect = "late-duplicate-overwrites"
 					}
 				}
-				if defect == "late-duplicate-overwrites" {
-					rep.Violate(hx.Violation{Kind: "spec",
-						What: fmt.Sprintf("hop %d reports RTT %s, the RTT of a later duplicate, instead of %s ns of the first accepted reply", ttl, p.RTT, want[k]),
-						Sig:  map[string]string{"engine": "serial", "defect": "late-duplicate-overwrites"}, Replay: sample})
-				} else {
-					violate(defect, fmt.Sprintf("hop %d reports RTT %s instead of %s ns of the first accepted reply", ttl, p.RTT, want[k]))
-				}
-				return
 			}
 		}
+		violate(defect, fmt.Sprintf("result %q is not the first-accepted (destination-overrides) selection %q of the accepted replies", got, ans))
 	}
 	return line, finish
 }
